@@ -79,6 +79,11 @@ inline const char *check_result(const std::vector<K> &data, K q, size_t eps, siz
     return nullptr;
 }
 
+template<typename I> struct slope_of { using type = float; };
+template<typename K, size_t E, size_t R, typename F> struct slope_of<pgm::PGMIndex<K, E, R, F>> { using type = F; };
+template<typename K, size_t E, size_t R, typename F> struct slope_of<pgm::CompressedPGMIndex<K, E, R, F>> { using type = F; };
+template<typename K, size_t E, typename F> struct slope_of<pgm::EliasFanoPGMIndex<K, E, F>> { using type = F; };
+
 template<typename Index, typename K>
 struct Explorer {
     Run &run; Counters &cn; int prop; const char *cfg_name;
@@ -297,6 +302,17 @@ struct Explorer {
         verif::chunks = spec.chunks;
         verif::env = spec.chunks > 1 ? int((spec.word + spec.seam + spec.rep + spec.n) % 3) : 0;
         check_array(data, queries, "family=" + spec.str(), true);
+        // double keys with double slopes: the same member with every key multiplied by 2^150 (exact). The key density then is far
+        // below the smallest float (slopes around 2^-150) but an ordinary double, which the slope type of this configuration holds.
+        if constexpr (std::is_same_v<K, double> && std::is_same_v<typename slope_of<Index>::type, double>) {
+            if (!run.deadline_passed()) {
+                const double sc = std::ldexp(1.0, 150);
+                for (auto &k : data) k *= sc;
+                for (auto &k : queries) k *= sc;
+                queries.erase(std::remove_if(queries.begin(), queries.end(), [](double q) { return !std::isfinite(q); }), queries.end());   // the largest finite query times 2^150 is the reserved +infinity
+                check_array(data, queries, "family=" + spec.str() + " scale=150", true);
+            }
+        }
         verif::chunks = saved; verif::env = 0;
     }
 
@@ -311,6 +327,7 @@ struct Explorer {
             if (!ks::generate_family<K>(spec, Eps, data, queries)) { fprintf(stderr, "cannot regenerate family\n"); exit(2); }
             desc = "family=" + m.at("family");
         } else { data = mc::parse_keys<K>(m.at("data")); desc = "data=" + m.at("data"); }
+        if constexpr (std::is_floating_point_v<K>) if (m.count("scale") && m.count("family")) { const K sc = K(std::ldexp(1.0, atoi(m.at("scale").c_str()))); for (auto &k : data) k *= sc; for (auto &k : queries) k *= sc; queries.erase(std::remove_if(queries.begin(), queries.end(), [](K q) { return !std::isfinite(q); }), queries.end()); desc += " scale=" + m.at("scale"); }
         std::string q = m.count("q") ? m.at("q") : "";
         if (!q.empty() && q[0] != '(' && q[0] != '*') queries = {mc::parse_key<K>(q)};
         else if (!m.count("family")) { std::vector<K> pal(data.begin(), data.end()); pal.erase(std::unique(pal.begin(), pal.end()), pal.end()); queries = ks::query_alphabet<K>(pal); }
